@@ -86,7 +86,7 @@ func (fx *fexec) externModel(key string, x *ssa.Call, f *ssa.Function, args []Va
 					vc.note("extern fmt.Appendf(nil, constant format, ...): a fresh byte slice spelling the formatted text (assumed from its documentation)")
 					s := vc.define(x.Name()+"_s", t)
 					n := app(SInt, "str.len", s)
-					res := vc.allocSlice(st, types.Typ[types.Byte], n, n, x.Name())
+					res := vc.allocSlice(st, vc.under(rt).(*types.Slice).Elem(), n, n, x.Name())
 					vc.declUF("bytestr", "("+SSlice+") String")
 					vc.assert(eq(app("String", "bytestr", res.T), s))
 					res.Ty = rt
@@ -133,6 +133,46 @@ func (fx *fexec) externModel(key string, x *ssa.Call, f *ssa.Function, args []Va
 		ln := sLen(args[0].T)
 		vc.assert(and(le(intLit(-11), n), le(n, intLit(10)), le(n, ln), le(sub(intLit(0), n), ln)))
 		return Val{Ty: rt, Tup: []Val{{Ty: vt, T: val}, {Ty: types.Typ[types.Int], T: n}}}, true
+	case "encoding/binary.PutUvarint", "encoding/binary.PutVarint":
+		// writes the n = uvarintLen(x) bytes of the varint at buf[0:n] (panics when the buffer
+		// is shorter) and returns n; for PutVarint x is the zig-zag image of the argument.
+		// The written bytes themselves are an uninterpreted function of the value.
+		vc.note("extern " + key + ": writes uvarintLen(value) bytes at the start of the buffer and returns that count (assumed from its documentation; byte values uninterpreted)")
+		buf := args[0]
+		xv := vc.toInt(args[1])
+		if key == "encoding/binary.PutVarint" {
+			// zig-zag: 2x for x >= 0, -2x-1 for x < 0
+			xv = vc.define(x.Name()+"_zz", ite(ge(xv, intLit(0)), mul(intLit(2), xv), sub(mul(intLit(-2), xv), intLit(1))))
+		}
+		n := vc.define(x.Name(), uvarintLenTerm(xv))
+		fx.panicPoint(st, lt(sLen(buf.T), n), "bounds", key+" on a short buffer", pos)
+		comp, srt := vc.elemComp(vc.under(buf.Ty).(*types.Slice).Elem())
+		h := vc.heapGet(st, comp, srt)
+		old := sel(h, sArr(buf.T))
+		na := vc.fresh("putarr", arrayElemSort(srt))
+		vc.ctr["qv"]++
+		k := Term{"q_k!" + itoa(vc.ctr["qv"]), SInt}
+		body := implies(not(and(le(sOff(buf.T), k), lt(k, add(sOff(buf.T), n)))), eq(sel(na, k), sel(old, k)))
+		vc.assert(Term{"(forall ((" + k.S + " Int)) " + body.S + ")", SBool})
+		vc.heapSet(st, comp, store(h, sArr(buf.T), na))
+		return Val{Ty: rt, T: vc.fromInt(n, rt)}, true
+	case "encoding/binary.littleEndian.PutUint32", "encoding/binary.littleEndian.PutUint64", "encoding/binary.littleEndian.PutUint16",
+		"encoding/binary.bigEndian.PutUint32", "encoding/binary.bigEndian.PutUint64", "encoding/binary.bigEndian.PutUint16":
+		// writes exactly w bytes at buf[0:w]; panics on a shorter buffer
+		w := map[string]int64{"16": 2, "32": 4, "64": 8}[key[len(key)-2:]]
+		buf := args[len(args)-2]
+		fx.panicPoint(st, lt(sLen(buf.T), intLit(w)), "bounds", key+" on a short buffer", pos)
+		vc.note("extern " + key + ": writes exactly the first bytes of the buffer (values uninterpreted), panics on a short buffer")
+		comp, srt := vc.elemComp(vc.under(buf.Ty).(*types.Slice).Elem())
+		h := vc.heapGet(st, comp, srt)
+		old := sel(h, sArr(buf.T))
+		na := vc.fresh("putarr", arrayElemSort(srt))
+		vc.ctr["qv"]++
+		k := Term{"q_k!" + itoa(vc.ctr["qv"]), SInt}
+		body := implies(not(and(le(sOff(buf.T), k), lt(k, add(sOff(buf.T), intLit(w))))), eq(sel(na, k), sel(old, k)))
+		vc.assert(Term{"(forall ((" + k.S + " Int)) " + body.S + ")", SBool})
+		vc.heapSet(st, comp, store(h, sArr(buf.T), na))
+		return Val{Ty: rt}, true
 	case "encoding/binary.littleEndian.Uint32", "encoding/binary.littleEndian.Uint64", "encoding/binary.littleEndian.Uint16",
 		"encoding/binary.bigEndian.Uint32", "encoding/binary.bigEndian.Uint64", "encoding/binary.bigEndian.Uint16":
 		// panics (index out of range) unless the buffer holds the full width; value uninterpreted
@@ -242,6 +282,15 @@ func externAssigns(vc *VC, key string, cc *ssa.CallCommon) (map[string]string, b
 		sl := vc.under(cc.Args[0].Type()).(*types.Slice)
 		comp, srt := vc.elemComp(sl.Elem())
 		return map[string]string{comp: srt}, true
+	case "encoding/binary.PutUvarint", "encoding/binary.PutVarint",
+		"encoding/binary.littleEndian.PutUint32", "encoding/binary.littleEndian.PutUint64", "encoding/binary.littleEndian.PutUint16",
+		"encoding/binary.bigEndian.PutUint32", "encoding/binary.bigEndian.PutUint64", "encoding/binary.bigEndian.PutUint16":
+		for _, a := range cc.Args {
+			if sl, ok := vc.under(a.Type()).(*types.Slice); ok {
+				comp, srt := vc.elemComp(sl.Elem())
+				return map[string]string{comp: srt}, true
+			}
+		}
 	case "sort.Sort", "sort.Stable":
 		if mi, ok := cc.Args[0].(*ssa.MakeInterface); ok {
 			if sl, ok := vc.under(mi.X.Type()).(*types.Slice); ok {
@@ -417,4 +466,13 @@ func (fx *fexec) formatModel(fmtArg, varArg ssa.Value) (Term, bool) {
 		return parts[0], true
 	}
 	return app("String", "str.++", parts...), true
+}
+
+// uvarintLenTerm: number of bytes of the base-128 varint of a non-negative integer below 2^64.
+func uvarintLenTerm(x Term) Term {
+	t := intLit(10)
+	for n := 9; n >= 1; n-- {
+		t = ite(lt(x, bigLit(pow2(7*n))), intLit(int64(n)), t)
+	}
+	return t
 }
